@@ -7,4 +7,4 @@ Extraction Language OCaml.
 Extraction "../ocaml/gen/check_ex.ml"
   determine_exit_code apply_baseline_comparison check_baseline_ratchet tighten_baseline
   handle_baseline_ratchet update_baseline_from_results check_step restrict restrict_dirs
-  evaluated_of retain_evaluated ff_subb ff_seq ff_trigger lookup contains key_of mkResult mkFlags mkSel.
+  evaluated_of retain_evaluated rekey norm_key ff_subb ff_seq ff_trigger lookup contains key_of mkResult mkFlags mkSel.
